@@ -152,6 +152,7 @@ def core_stmt_tok(s):
 def c01(ctx):
     out = en_sweep(ctx, ctx.n(600, 12000))
     out += en_sweep(ctx, ctx.n(100, 1500), entry="flat_file")
+    out += en_sweep(ctx, ctx.n(200, 3000), churn=True)
     return out
 
 
